@@ -150,6 +150,33 @@ func c17Coords(c *lib.Ctx, idx uint64) {
 				report("NewLongitudeDegrees(%v) is valid", d)
 			}
 		}
+		// ... on both sides, densely up to 2.5 turns past the range ends and at the nearest floats.
+		probes := 0
+		for _, sign := range []float64{1, -1} {
+			for i := 0; i <= 250000; i++ {
+				dl := sign * (90 + float64(i)*0.0036)
+				if !fit.NewLatitudeDegrees(dl).Invalid() {
+					report("NewLatitudeDegrees(%v) is valid", dl)
+					break
+				}
+				dg := sign * (180 + float64(i)*0.0036)
+				if !fit.NewLongitudeDegrees(dg).Invalid() {
+					report("NewLongitudeDegrees(%v) is valid", dg)
+					break
+				}
+				probes += 2
+			}
+			for _, e := range []float64{1e-12, 1e-9, 1e-6, 1, 1e3, 1e6, 1e12, 1e300} {
+				if !fit.NewLatitudeDegrees(sign*(90+e)).Invalid() || !fit.NewLatitudeDegrees(math.Nextafter(sign*90, sign*100)).Invalid() {
+					report("NewLatitudeDegrees just past %v is valid", sign*90)
+				}
+				if !fit.NewLongitudeDegrees(sign*(180+e)).Invalid() || !fit.NewLongitudeDegrees(math.Nextafter(sign*180, sign*200)).Invalid() {
+					report("NewLongitudeDegrees just past %v is valid", sign*180)
+				}
+				probes += 4
+			}
+		}
+		c.Count("out_of_range_degree_probes", int64(probes))
 		if !fit.NewLatitudeInvalid().Invalid() || !fit.NewLongitudeInvalid().Invalid() {
 			report("NewXInvalid() is not invalid")
 		}
